@@ -194,3 +194,78 @@ Example c09_callbacks_example :
   /\ (exists oc, Callbacks.run h 2 = Ok oc /\ length (Callbacks.oc_render oc) = 2 * 17)
   /\ RenderCb.render_cb h Err = Ok ([], true).
 Proof. cbv zeta. split; [vm_compute; reflexivity|]. split; [eexists; split; vm_compute; reflexivity|]. vm_compute. reflexivity. Qed.
+
+(* ---- Round 6: the byte content of the texts, and the line measure as CODE.
+   Everything above takes the display-width measure as a total function W.
+   The text renderer measures every line of every cell in a callback
+   (dimensionSetter.UpdateProperties, run by InvokeRenderCallbacks before the
+   body); whatever computes a line's width is a loop over the line's bytes and
+   can index out of range like any loop.  Model/Measure.v models the callback
+   and Render() over a measure Wr : bytes -> option nat (None = the measuring
+   code panics on that line).  The theorems say exactly what the measure owes:
+   (1) the callback panics on a cell iff one of the cell's lines is outside the
+       measure's domain;
+   (2) the callback is total on every cell iff the measure is total on EVERY
+       byte string without a line feed - no smaller domain will do (for every
+       such string there is a cell that feeds it to the measure);
+   (3) Render() under any non-empty decoration panics iff some line of some
+       cell (header or body) is outside the measure's domain, and otherwise is
+       the model of Model/Text.v;
+   (4) for every history of building calls and column-property calls over
+       arbitrary items, a measure that is total on the LF-free strings makes
+       Render() total under every decoration value. *)
+From Tab Require Model.Measure Proofs.MeasureProofs.
+
+Theorem c09_measuring_callback_panics_iff : forall (Wr : bytes -> option nat) c,
+  (0 <= vc_tw c)%Z -> (0 <= vc_h c)%Z ->
+  (Measure.dimension_setter_r Wr c = Panic
+   <-> Exists (fun l => Wr l = None) (TextLayout.cell_lines c)).
+Proof. intros Wr c H1 H2. exact (MeasureProofs.setter_r_panics_iff Wr c (conj H1 H2)). Qed.
+Print Assumptions c09_measuring_callback_panics_iff.
+
+Theorem c09_measure_domain_is_every_line : forall (Wr : bytes -> option nat),
+  (forall c, (0 <= vc_tw c)%Z /\ (0 <= vc_h c)%Z -> Measure.dimension_setter_r Wr c <> Panic)
+  <-> (forall l, ~ In LF l -> Wr l <> None).
+Proof. exact MeasureProofs.setter_total_iff. Qed.
+Print Assumptions c09_measure_domain_is_every_line.
+
+Theorem c09_text_render_panics_iff : forall (Wr : bytes -> option nat) d v,
+  length (v_align v) = S (v_ncols v) -> TextLayout.cells_ok (Measure.total_of Wr) v ->
+  (Measure.text_render_r Wr d v = Panic
+   <-> Decoration.is_empty_decoration d = false
+       /\ Exists (fun c => Exists (fun l => Wr l = None) (TextLayout.cell_lines c)) (TextLayout.all_cells v)).
+Proof. exact MeasureProofs.render_r_panics_iff. Qed.
+Print Assumptions c09_text_render_panics_iff.
+
+Theorem c09_total_table_measured :
+  forall (Wr : bytes -> option nat) (e : Cell.env) (json : Cell.item -> option bytes) (h : list top),
+  twf_hist h ->
+  (forall l, ~ In LF l -> Wr l <> None) ->
+  let v := hview (Measure.total_of Wr) e json h in
+  forall d, render_string (Measure.text_render_r Wr d v) <> Panic
+            /\ Measure.text_render_r Wr d v = Text.text_render (Measure.total_of Wr) d v.
+Proof.
+  intros Wr e json h Hwf Htot v d.
+  assert (E : Measure.text_render_r Wr d v = Text.text_render (Measure.total_of Wr) d v)
+    by (apply MeasureProofs.render_r_agree, MeasureProofs.total_measures_all; exact Htot).
+  split; [|exact E]. rewrite E. apply c09_render_string_no_panic, TextAnyDec.text_no_panic_any_decoration.
+  - destruct (hview_wf (Measure.total_of Wr) e json h Hwf) as (_ & _ & Hal & _). exact Hal.
+  - apply hview_cells_ok.
+Qed.
+Print Assumptions c09_total_table_measured.
+
+(* non-vacuity: a measure that counts bytes but indexes past the end of a line
+   whose last byte is ESC.  A header and one row; with the text "ab" the table
+   renders, with "ab" ESC in the body cell Render() panics. *)
+Example c09_measure_example :
+  let Wr := fun l : bytes => match rev l with 27%N :: _ => None | _ => Some (length l) end in
+  let d := Decoration.populate (Decoration.mkDecor [45%N] [124%N] [43%N] [] [] [] [] [] [] [] [] [] [] [] [] [] [] [] [] [] [] [] false) in
+  let cell := fun s => mkVCell s false None (Z.of_nat (length s)) 1%Z false in
+  let v := fun s => mkView 1 (Some [cell [104%N]]) [Some [cell s]] [None; None] [None; None] in
+  (exists out, Measure.text_render_r Wr d (v [97%N; 98%N]) = Ok out /\ out <> [])
+  /\ Measure.text_render_r Wr d (v [97%N; 98%N; 27%N]) = Panic
+  /\ Measure.dimension_setter_r Wr (cell [97%N; 98%N; 27%N]) = Panic.
+Proof.
+  cbv zeta. split; [eexists; split; [vm_compute; reflexivity | discriminate]|].
+  split; vm_compute; reflexivity.
+Qed.
